@@ -7,7 +7,7 @@ use crate::rng::{derive, Rng};
 use serde_json::json;
 
 const RULE: &str = "cells = (message kind in {bank, staking, distribution, custom, ibc, gov, stargate, any} | query kind in {bank, staking, custom, ibc, stargate, grpc}) \
-x origin in {top level; sub-message of the custom-typed contract at depth 1-3; sub-message of the Empty-typed contract lifted by new_with_empty at depth 1-3} \
+x origin in {top level; sub-message of the custom-typed contract at depth 1-3; sub-message of the Empty-typed contract lifted by new_with_empty at depth 1-3} x entry point of the emitting contract (execute at every depth; instantiate, reply, sudo, migrate at depth 1-2) \
 x all 2^6 accept/fail settings of recording modules (custom, staking, distribution, ibc, gov, stargate; bank records and delegates to the real keeper) \
 x reply mode of the emitting sub-message (Never, Always, Error = failure caught) x with/without an earlier sibling to another module; plus 4 compiled \
 configurations of the built-in Accepting/Failing module types, and sudo routing. Oracle per cell: exactly one new log entry, in module(kind), with the true sender \
@@ -46,20 +46,31 @@ pub fn run(ctx: &Ctx) -> Report {
                 let origins = [Origin::Top, Origin::Puppet(1), Origin::Puppet(2), Origin::Puppet(3), Origin::Lifted(1), Origin::Lifted(2), Origin::Lifted(3)];
                 for k in KINDS {
                     for o in origins {
-                        for mode in [RMode::Never, RMode::Error, RMode::Always] {
-                            if o == Origin::Top && mode != RMode::Never {
-                                continue;
-                            }
-                            // sibling variants: always in thorough, sampled in quick
-                            let sib_choices: &[bool] = if o == Origin::Top { &[false] } else if thorough || rng.chance(1, 3) { &[false, true] } else { &[false] };
-                            for &sib in sib_choices {
-                                n += 1;
-                                if let Some((sig, detail)) = exec_cell(&mut w, k, o, mode, sib, n + round as u64 * 100_000, &mut rep) {
-                                    rep.violate("C17", sig, detail.clone(), json!({"engine": "e5_routing", "cell": detail, "configuration": cfg}));
-                                    // the instance may be inconsistent after a panic: start over
-                                    let failing = w.hub.failing.borrow().clone();
-                                    w = RWorld::new();
-                                    *w.hub.failing.borrow_mut() = failing;
+                        // every entry point of the emitting contract at depth 1; execute at every depth
+                        let ents: &[Ent] = match o {
+                            Origin::Puppet(1) | Origin::Lifted(1) => &[Ent::Execute, Ent::Instantiate, Ent::Reply, Ent::Sudo, Ent::Migrate],
+                            Origin::Puppet(2) | Origin::Lifted(2) => &[Ent::Execute, Ent::Instantiate, Ent::Reply],
+                            _ => &[Ent::Execute],
+                        };
+                        for &ent in ents {
+                            for mode in [RMode::Never, RMode::Error, RMode::Always] {
+                                if o == Origin::Top && mode != RMode::Never {
+                                    continue;
+                                }
+                                if ent != Ent::Execute && mode == RMode::Always && !thorough {
+                                    continue;
+                                }
+                                // sibling variants: always in thorough, sampled in quick
+                                let sib_choices: &[bool] = if o == Origin::Top { &[false] } else if thorough || rng.chance(1, 3) { &[false, true] } else { &[false] };
+                                for &sib in sib_choices {
+                                    n += 1;
+                                    if let Some((sig, detail)) = exec_cell(&mut w, k, o, ent, mode, sib, n + round as u64 * 100_000, &mut rep) {
+                                        rep.violate("C17", sig, detail.clone(), json!({"engine": "e5_routing", "cell": detail, "configuration": cfg}));
+                                        // the instance may be inconsistent after a panic: start over
+                                        let failing = w.hub.failing.borrow().clone();
+                                        w = RWorld::new();
+                                        *w.hub.failing.borrow_mut() = failing;
+                                    }
                                 }
                             }
                         }
